@@ -1,4 +1,5 @@
 import PgBifrost.Proofs.Marshal
+import PgBifrost.Gen.MarshalEntrySrc
 import PgBifrost.Proofs.MarshalPool
 import PgBifrost.Gen.MarshalSrc
 /-!
@@ -278,5 +279,25 @@ theorem marshal_columns_as_in_source (op : String) (noOld : Bool) (old : List (S
       · simp [hd, ho, hv, Id.run, pure, bind]
       · by_cases ht : v.value = toastMarker <;> cases noOld <;>
           simp [hd, ho, hv, ht, toastMarker, Id.run, pure, bind] <;> simp_all [toastMarker]
+
+theorem upperHex_append (a b : Nat) :
+    upperHex a ++ "/" ++ upperHex b = String.ofList (upperHexChars a ++ '/' :: upperHexChars b) := by
+  simp [upperHex, String.ofList_append, String.append_assoc]
+
+/-- The rest of `marshalWalToJson` - the time text (the server time only when non-zero), the LSN text (`%X/%X` of
+the upper and lower 32 bits), every field of the entry handed to the JSON encoder, its JSON names - and the header
+copy and BEGIN/COMMIT rule of `Marshaller.Start`, translated from the source on this run, are the model's `entry`
+and `stage`: every field of a rendered record is a function of the message alone. -/
+theorem marshal_entry_as_in_source :
+    PgBifrost.Gen.MarshalEntrySrc.entry = entry ∧ PgBifrost.Gen.MarshalEntrySrc.stage = stage ∧
+    PgBifrost.Gen.MarshalEntrySrc.tags = [("Time", "json:\"time\""), ("TimeMs", "json:\"time_ms\""), ("Txn", "json:\"txn\""),
+      ("Lsn", "json:\"lsn\""), ("Table", "json:\"table\""), ("Operation", "json:\"operation\""), ("Columns", "json:\"columns\"")] := by
+  have he : PgBifrost.Gen.MarshalEntrySrc.entry = entry := by
+    funext noOld c
+    simp [PgBifrost.Gen.MarshalEntrySrc.entry, entry, timeText, formatLsn, formatLsnChars, upperHex_append]
+  refine ⟨he, ?_, rfl⟩
+  funext noOld c
+  simp only [PgBifrost.Gen.MarshalEntrySrc.stage, stage, he]
+  by_cases h : c.operation = "BEGIN" ∨ c.operation = "COMMIT" <;> simp [h]
 
 end PgBifrost.Props.C10
